@@ -1067,6 +1067,12 @@ def convert_to_typing_types(x: typing.Type) -> typing.Type:
     elif origin is type:
         return typing.Type[tuple(args)]
 
+    for alias_name in typing.__all__:  # e.g. collections.deque[int], collections.abc.Sequence[int]
+        alias = getattr(typing, alias_name)
+
+        if isinstance(alias, typing._SpecialGenericAlias) and alias.__origin__ is origin:
+            return alias[tuple(args)]
+
     raise RuntimeError(x)
 
 
